@@ -97,7 +97,7 @@ CLAIMS = {
          "each has its parameter's type, then with exactly the first |params| argument values in order, otherwise the result is an argument-count or "
          "type error, never a crash, and no invocation is logged; a host function registered under a built-in's name replaces it. Tied to magic.rs / "
          "resolvers.rs / functions.rs by all built-ins x all boundary values in both styles (equivalence also evaluated on the implementation) and by "
-         "41 pre-written host closures covering every extractor kind, called with 0..arity+2 arguments of matching and mismatching kinds."),
+         "45 pre-written host closures covering every extractor kind (the all-arguments extractor in every position), called with 0..arity+2 arguments of matching and mismatching kinds."),
  "C07": ("Theorems on the ordered host-call log of Eval.eval: for programs without macros the number of invocations is at most the number of "
          "call nodes (linear bound, by induction over expressions; every extractor list that touches each argument once - all built-ins - is covered); "
          "a call's log is the receiver's log, then logs of argument results in argument order (at most their total), then at most one invocation; "
